@@ -43,7 +43,7 @@ def _ts(rng, year, off, lo=None):
         t = y0 + rng.below(365) * hist.DAY + rng.choice(hist.TIMES)
     t = min(max(t, y0), y1)
     if lo is not None and t <= lo:
-        t = lo + rng.choice([0, 1, 1_000_000, 3600_000_000])
+        t = lo + rng.choice([1, 1, 1_000_000, 3600_000_000])       # strictly later: the balance replay orders equal instants by table
         if t > y1:
             return None
     return t
@@ -122,6 +122,8 @@ def gen_asset(rng, name, years, ne, nh, mixed):
                 fee = 0 if what == "move0" else min(sent, rng.choice([1000, U // 1000, max(1, sent // 50)]))
                 row = {"ts": ts, "from_exch": acct[0], "from_holder": acct[1], "to_exch": to[0], "to_holder": to[1],
                        "spot": rng.choice(PRICES), "crypto_sent": sent, "crypto_received": sent - fee}
+                if fee > 0 and rng.chance(2):
+                    fee, row["spot"], row["crypto_received"] = 1, 1000, sent - 1       # dust fee: worth 1e-19 yen (finding F14)
                 if fee == 0 and rng.chance(50):
                     row["spot"] = None if rng.chance(50) else 0
                 intras.append(row)
@@ -462,7 +464,8 @@ def fracs_of(res):
 
 def load_corpus():
     out = []
-    for p in sorted(glob.glob(os.path.join(CORPUS, "*.json"))):
+    # corpus first (incl. the replays of the fixed defect F5), then the replay of the known finding F14 (must still fail)
+    for p in sorted(glob.glob(os.path.join(CORPUS, "*.json"))) + [os.path.join(core.VERIF, "findings", "F14.json")]:
         with open(p, encoding="utf-8") as f:
             out.append((os.path.basename(p), json.load(f)["case"]))
     return out
